@@ -120,6 +120,59 @@ pub fn build_w_usize(m: &Model) -> AdjacencyListWeighted<usize> {
     d
 }
 
+/// Like `build_w_usize`, every weight multiplied by `k` (the caller makes sure
+/// that every path sum still fits).
+pub fn build_w_usize_scaled(m: &Model, k: usize) -> AdjacencyListWeighted<usize> {
+    assert!(m.is_contig() && m.n() > 0);
+    let mut d = AdjacencyListWeighted::<usize>::empty(m.n());
+    for (&(u, v), &w) in &m.arcs {
+        d.add_arc_weighted(u, v, usize::try_from(w).expect("harness: negative usize weight").checked_mul(k).expect("harness: scale overflow"));
+    }
+    d
+}
+
+pub fn build_w_isize_scaled(m: &Model, k: isize) -> AdjacencyListWeighted<isize> {
+    assert!(m.is_contig() && m.n() > 0);
+    let mut d = AdjacencyListWeighted::<isize>::empty(m.n());
+    for (&(u, v), &w) in &m.arcs {
+        d.add_arc_weighted(u, v, (w as isize).checked_mul(k).expect("harness: scale overflow"));
+    }
+    d
+}
+
+/// A scale factor for non-negative weights such that the sum of ALL arc
+/// weights times the factor still fits in usize (every path sum and every
+/// tentative distance Dijkstra can form is bounded by that sum).
+pub fn usize_scale(r: &mut crate::rng::Rng, m: &Model) -> usize {
+    let total: u128 = m.arcs.values().map(|&w| w as u128).sum();
+    if total == 0 {
+        return 1;
+    }
+    // usize::MAX itself is the 'unreachable' sentinel: stay strictly below it
+    let max = ((usize::MAX as u128 - 1) / total) as usize;
+    match r.below(8) {
+        0 => max,
+        1 => (max / 2).max(1),
+        2 => (1usize << 40).min(max),
+        _ => 1,
+    }
+}
+
+/// A scale factor for isize weights: (n + 1) * (sum |w| + 1) * factor fits in
+/// isize, which bounds every value Bellman-Ford / Floyd-Warshall can form
+/// (also in the presence of a negative circuit, over n rounds).
+pub fn isize_scale(r: &mut crate::rng::Rng, m: &Model) -> isize {
+    let total: u128 = m.arcs.values().map(|&w| w.unsigned_abs() as u128).sum::<u128>() + 1;
+    let bound = total * (m.n() as u128 + 1);
+    let max = (isize::MAX as u128 / bound) as isize;
+    match r.below(8) {
+        0 => max.max(1),
+        1 => (max / 2).max(1),
+        2 => (1isize << 30).min(max.max(1)),
+        _ => 1,
+    }
+}
+
 pub fn build_w_isize(m: &Model) -> AdjacencyListWeighted<isize> {
     assert!(m.is_contig() && m.n() > 0);
     let mut d = AdjacencyListWeighted::<isize>::empty(m.n());
